@@ -100,6 +100,8 @@ def run(chk, which="C17"):
     dropped = []
     jobs = [(si, a, b, fl, std) for fl, std in cfgs for si, (a, b) in enumerate(shards)]
     results = core.pmap(lambda j: (j[3], j[4], build_and_run(j[0], j[1], j[2], j[3], j[4], nrandom, dropped)), jobs)
+    bad_ids = {d["id"] for d in dropped}
+    core.reach(chk, emit_tu(durs[::4], [x for x in pairs if x["id"] not in bad_ids][::6][:16]), [[30, 1]])
     evals = 0
     distinct = set()
     secs = None
